@@ -180,8 +180,10 @@ class Run:
             if not ok:
                 self.harness_errors.append(f"coverage floor missed: {desc}")
         if self.harness_errors:
-            for e in self.harness_errors:
+            for e in self.harness_errors[:10]:
                 lines.append(f"HARNESS-ERROR property={self.pid} {e}")
+            if len(self.harness_errors) > 10:
+                lines.append(f"HARNESS-ERROR property={self.pid} ... and {len(self.harness_errors) - 10} more")
             status = 2 if status == 0 else status
 
         cov = {}
